@@ -248,6 +248,10 @@ func cmdCheck(args []string) int {
 					rep.Inconclusive = append(rep.Inconclusive, "unsupported: "+r.Detail)
 				case exec.PathBudget:
 					rep.Inconclusive = append(rep.Inconclusive, "unwinding: "+r.Detail)
+				case exec.PathPanic:
+					if r.Sample == nil && r.SampleStatus != "unsat" {
+						rep.Inconclusive = append(rep.Inconclusive, "panic on a path whose feasibility is undecided: "+r.PanicMsg)
+					}
 				}
 				for oi := range r.Obligations {
 					o := &r.Obligations[oi]
@@ -258,6 +262,10 @@ func cmdCheck(args []string) int {
 					if o.Result == "sat" && o.WitnessV != nil {
 						cases = append(cases, exec.ReplayCase{Harness: job.Harness, Args: job.Args, Witness: o.WitnessV})
 						infos = append(infos, caseInfo{"sat", r, o})
+						for _, w := range o.MoreWitnesses {
+							cases = append(cases, exec.ReplayCase{Harness: job.Harness, Args: job.Args, Witness: w})
+							infos = append(infos, caseInfo{"sat-more", r, o})
+						}
 					}
 				}
 				if r.Sample != nil && (pi%sampleEvery == 0 || r.Status != exec.PathOK || len(r.Monitors) > 0) {
@@ -292,7 +300,7 @@ func cmdCheck(args []string) int {
 				inf := infos[i]
 				rrc := rr
 				switch inf.kind {
-				case "sat":
+				case "sat", "sat-more":
 					failed := false
 					for _, f := range rr.Failed {
 						if f == inf.ob.ID {
@@ -305,7 +313,7 @@ func cmdCheck(args []string) int {
 					} else if rr.Panic != "" && !(job.PanicOK != "" && strings.HasPrefix(rr.Panic, job.PanicOK)) {
 						viols = append(viols, violation{Job: jobName(job), Assertion: inf.ob.ID, Kind: "panic", Witness: cases[i].Witness,
 							Detail: "native run panicked: " + rr.Panic, Native: &rrc, Args: job.Args, Harness: job.Harness})
-					} else {
+					} else if inf.kind == "sat" {
 						rep.Inconclusive = append(rep.Inconclusive, "sat model of "+inf.ob.ID+" did not reproduce natively (float over-approximation or encoder error)")
 					}
 				case "sample":
@@ -486,8 +494,9 @@ func cmdCheck(args []string) int {
 		"violations":  nViol,
 	}
 	b, _ := json.MarshalIndent(ev, "", " ")
-	os.MkdirAll(filepath.Join(*vdir, "evidence"), 0o755)
-	if err := os.WriteFile(filepath.Join(*vdir, "evidence", *propID+".json"), b, 0o644); err != nil {
+	evDir := envOr("VERIF_EVIDENCE_DIR", filepath.Join(*vdir, "evidence"))
+	os.MkdirAll(evDir, 0o755)
+	if err := os.WriteFile(filepath.Join(evDir, *propID+".json"), b, 0o644); err != nil {
 		fmt.Fprintln(os.Stderr, err)
 		return 2
 	}
